@@ -80,3 +80,12 @@ func lemmaStoreReadyFor(hs *store.HStore, ki *store.KeyInfo) bool { return true 
 //@   modifies *
 //@   ensures cmem.DBRL.SetData.Count == old(cmem.DBRL.SetData.Count)-1
 //@   ghost after Unix#1: lemmaStoreReadyFor(s.hstore, ki)
+
+// ---------- C11: special keys ----------
+
+// "get @<path>": the path comes straight from the client
+//@ func (s *StorageClient) listDir
+//@   props C11
+//@   ints bv
+//@   requires s != nil && s.hstore != nil && store.SpecStoreOK(s.hstore)
+//@   modifies *
